@@ -1,6 +1,7 @@
 import Anysystem.Proofs.SearchThms
 import Anysystem.Model.Strategy
 import Anysystem.Proofs.StagedThms
+import Anysystem.Proofs.SearchShared
 /-!
 # C16 — Staged exploration composes
 
@@ -33,5 +34,16 @@ theorem C16_status_counts_exact (cfg : Cfg) (h : Handler σ) (p : Preds σ) (has
     ((a.statuses.filter (·.1 == status)).map (·.2)).sum =
       (a.evald.filter (fun e => p.verdict e == .stop status)).length :=
   search_statuses_exact _ strat mode fuel s₀ r a hrun status
+
+/- shared visited cache: an all-Ok staged run evaluates (up to state identity) exactly the union of what is reachable from
+   the start states; the evaluated key set does not depend on strategy, exact cache mode or order of the start states;
+   it stays within what a single run passing through the start states evaluates -/
+#check @searchMany_evald_reachable
+#check @searchMany_ok_union
+#check @searchMany_same_keys
+#check @searchMany_same_keys_disabled
+#check @searchMany_within_single_run
+#check @runFromStates_is_searchMany
+#check @runFromStates_ok_union
 
 end Anysystem
